@@ -15,11 +15,24 @@ struct Probe
 	std::function<double(double)> f;
 	long calls	= 0;
 	double xmin = 1e308, xmax = -1e308;
+	double lo = 0, hi = 0;	 // the interval (set by the caller): the deepest bisection level of any abscissa is tracked
+	int deepest = 0;
 	double operator()(double x)
 	{
 		calls++;
 		xmin = std::min(xmin, x);
 		xmax = std::max(xmax, x);
+		if(hi > lo)
+		{
+			long double t = ((long double) x - lo) / ((long double) hi - lo);
+			int lev		  = 0;
+			while(lev < 40 && fabsl(t - roundl(t)) > 1e-7L)
+			{
+				t *= 2;
+				lev++;
+			}
+			deepest = std::max(deepest, lev);
+		}
 		return f(x);
 	}
 };
@@ -29,11 +42,14 @@ struct Run
 	long calls	 = 0;
 	double xmin = 0, xmax = 0;
 	bool warned = false;
+	int deepest = 0;   // deepest bisection level at which the integrand was evaluated (level n: odd multiples of width/2^n)
 	std::string text;
 };
 Run integrate(const std::function<double(double)>& f, double a, double b, double eps, int depth, bool& exited)
 {
 	Probe P {f};
+	P.lo = std::min(a, b);
+	P.hi = std::max(a, b);
 	Run r;
 	GuardResult g = guarded([&]() { r.value = libphysica::Integrate(std::ref(P), a, b, eps, depth); });
 	exited	 = g.exited;
@@ -41,6 +57,7 @@ Run integrate(const std::function<double(double)>& f, double a, double b, double
 	r.xmin	 = P.xmin;
 	r.xmax	 = P.xmax;
 	r.warned = g.text.find("did not converge") != std::string::npos;
+	r.deepest = P.deepest;
 	r.text	 = g.text;
 	return r;
 }
@@ -49,6 +66,10 @@ void common_checks(Ctx& c, const std::function<double(double)>& f, double a, dou
 	double lo = std::min(a, b), hi = std::max(a, b);
 	if(r.calls > 0)
 		VCHECK(r.xmin >= lo && r.xmax <= hi, "integrand evaluated outside the closed interval: abscissae in [" << r.xmin << "," << r.xmax << "], interval [" << lo << "," << hi << "]");
+	// a non-convergence warning means the recursion met its depth limit: level depth+2 must have been evaluated (a warning raised one level
+	// early, or for no reason, would otherwise silence the accuracy assertion of the caller)
+	if(r.warned && depth + 2 <= 38 && (hi - lo) > 1e-290)
+		VCHECK(r.deepest >= depth + 2, "non-convergence warning although the deepest evaluated bisection level is " << r.deepest << ", the limit for depth " << depth << " is " << depth + 2);
 	long bound = (1L << std::min(depth + 2, 40)) + 1;
 	VCHECK(r.calls <= bound, "integrand evaluated " << r.calls << " times, bound 2^(depth+2)+1 = " << bound << " for depth " << depth);
 	// swapping the limits negates exactly; the sign of epsilon is irrelevant
@@ -117,7 +138,7 @@ VCLAUSE(polynomials, 40, 8000, 200000, "degree >= 4, or the recursion actually h
 VCLAUSE(regular_families, 40, 6000, 150000, "the requested accuracy forces at least two levels of recursion (more than 9 evaluations)")
 {
 	Src& s	= c.s;
-	int fam = (int) s.range(0, 3);
+	int fam = (int) s.range(0, 4);
 	std::function<double(double)> f;
 	double a, b;
 	long double exact;
@@ -163,6 +184,19 @@ VCLAUSE(regular_families, 40, 6000, 150000, "the requested accuracy forces at le
 			d << "(x+" << sh << ")^-" << k;
 			break;
 		}
+		case 4:
+		{	// f'''' = A (2.5 + 1.5 sin(W t)) in [A,4A] with many periods inside the interval: the fourth derivative keeps its sign and varies by
+			// four, but the Richardson correction of the leaves gains nothing - the family on which the bound 4*epsilon is sharpest
+			double L = std::pow(10.0, s.uniform(-2, 2)), x0 = s.uniform(-2, 2) * L, A = std::pow(10.0, s.uniform(-3, 3)) / (L * L * L * L);
+			double W = std::pow(10.0, s.uniform(0.5, 2.5)) / L;
+			a		 = x0 + L * s.uniform(-1, 1);
+			b		 = a + L * s.uniform(0.2, 2);
+			f		 = [=](double x) { double t = x - x0; return A * (2.5 * t * t * t * t / 24 + 1.5 * std::sin(W * t) / (W * W * W * W)); };
+			auto F	 = [=](long double x) { long double t = x - x0; return (long double) A * (2.5L * t * t * t * t * t / 120 - 1.5L * cosl((long double) W * t) / ((long double) W * W * W * W * W)); };
+			exact	 = F(b) - F(a);
+			d << A << "*(2.5 t^4/24 + 1.5 sin(" << W << " t)/W^4), t=x-" << x0;
+			break;
+		}
 		default:
 		{	// x^p, p>4: f'''' ~ x^(p-4), ratio (b/a)^(p-4) <= 4
 			double p  = s.uniform(4.2, 12);
@@ -191,7 +225,7 @@ VCLAUSE(regular_families, 40, 6000, 150000, "the requested accuracy forces at le
 	if(r.calls > 9)
 		c.nt();
 	c.cls(r.warned ? "non_convergence_warning" : "converged");
-	static const char* fn[] = {"fam_exp", "fam_cosh", "fam_inverse_power", "fam_power"};
+	static const char* fn[] = {"fam_exp", "fam_cosh", "fam_inverse_power", "fam_power", "fam_oscillating_fourth_derivative"};
 	c.cls(fn[fam]);
 	if(!r.warned)
 	{
